@@ -10,6 +10,13 @@ implementation after every operation.  Nothing here refers to how the models com
 namespace Frappy.Spec.C18
 open Frappy.ExtParams
 
+/-- `∀ a, o = some a → P a` is decidable (kernel-reducible: no tactic-built casts) -/
+instance decForallSome {α : Type} (o : Option α) (P : α → Prop) [∀ a, Decidable (P a)] :
+    Decidable (∀ a, o = some a → P a) :=
+  match o with
+  | none => isTrue (fun _ h => nomatch h)
+  | some b => decidable_of_iff (P b) ⟨fun h _ ha => (Option.some.inj ha) ▸ h, fun h => h b rfl⟩
+
 /-! ## struct parameter and member parameters -/
 
 /-- "a struct parameter and its member parameters agree member by member": every member name has a
@@ -118,9 +125,9 @@ def Within (l : Limits) (x : Val) : Prop :=
   (∀ a, l.min = some a → a ≤ x) ∧ (∀ b, l.max = some b → x ≤ b) ∧
   (∀ ab, l.limits = some ab → ab.1 ≤ x ∧ x ≤ ab.2)
 
-instance (l : Limits) (x : Val) : Decidable (Within l x) := by
-  unfold Within
-  cases l.min <;> cases l.max <;> cases l.limits <;> simp <;> infer_instance
+instance (l : Limits) (x : Val) : Decidable (Within l x) :=
+  inferInstanceAs (Decidable ((∀ a, l.min = some a → a ≤ x) ∧ (∀ b, l.max = some b → x ≤ b) ∧
+    (∀ ab, l.limits = some ab → ab.1 ≤ x ∧ x ≤ ab.2)))
 
 /-- what is recorded for one operation on a parameter with limits -/
 structure LRec where
@@ -138,9 +145,11 @@ def LimitsOk (r : LRec) : Prop :=
   (∀ ab, r.setLimits = some ab → ab.2 < ab.1 → r.ok = false ∧ r.after.limits = r.before.limits) ∧
   (∀ ab, r.after.limits = some ab → ab.1 ≤ ab.2)
 
-instance (r : LRec) : Decidable (LimitsOk r) := by
-  unfold LimitsOk
-  cases r.write <;> cases r.setLimits <;> cases r.after.limits <;> simp <;> infer_instance
+instance (r : LRec) : Decidable (LimitsOk r) :=
+  inferInstanceAs (Decidable (
+    (∀ x, r.write = some x → r.ok = true → Within r.before x ∧ (r.echo = true → r.value = x ∧ Within r.after r.value)) ∧
+    (∀ ab, r.setLimits = some ab → ab.2 < ab.1 → r.ok = false ∧ r.after.limits = r.before.limits) ∧
+    (∀ ab, r.after.limits = some ab → ab.1 ≤ ab.2)))
 
 def limitsOkB (r : LRec) : Bool := decide (LimitsOk r)
 
@@ -173,14 +182,18 @@ def TakenOver (n : Nat) (t : Takeover) (cb : Option Nat) (act : Nat → Bool) : 
 def NamesActive (n : Nat) (cb : Option Nat) (act : Nat → Bool) : Prop :=
   ∀ k, cb = some k → k < n ∧ act k = true
 
-instance (n : Nat) (cb : Option Nat) (act : Nat → Bool) : Decidable (SingleController n cb act) := by
-  unfold SingleController; infer_instance
+instance (n : Nat) (cb : Option Nat) (act : Nat → Bool) : Decidable (SingleController n cb act) :=
+  inferInstanceAs (Decidable ((∀ i, i < n → ∀ j, j < n → act i = true → act j = true → i = j) ∧
+    (∀ i, i < n → act i = true → cb = some i)))
 
-instance (n : Nat) (t : Takeover) (cb : Option Nat) (act : Nat → Bool) : Decidable (TakenOver n t cb act) := by
-  unfold TakenOver; cases t <;> simp <;> infer_instance
+instance (n : Nat) (t : Takeover) (cb : Option Nat) (act : Nat → Bool) : Decidable (TakenOver n t cb act) :=
+  match t with
+  | .byInput k => inferInstanceAs (Decidable (cb = some k ∧ ∀ i, i < n → (act i = true ↔ i = k)))
+  | .bySelf => inferInstanceAs (Decidable (cb = none ∧ ∀ i, i < n → act i = false))
+  | .no => isTrue trivial
 
-instance (n : Nat) (cb : Option Nat) (act : Nat → Bool) : Decidable (NamesActive n cb act) := by
-  unfold NamesActive; cases cb <;> simp <;> infer_instance
+instance (n : Nat) (cb : Option Nat) (act : Nat → Bool) : Decidable (NamesActive n cb act) :=
+  inferInstanceAs (Decidable (∀ k, cb = some k → k < n ∧ act k = true))
 
 structure CRec where
   takeover : Takeover
@@ -193,8 +206,10 @@ def ControlOk (n : Nat) (r : CRec) : Prop :=
   let act := fun i => r.act.getD i false
   SingleController n r.cb act ∧ TakenOver n r.takeover r.cb act ∧ (r.strong = true → NamesActive n r.cb act)
 
-instance (n : Nat) (r : CRec) : Decidable (ControlOk n r) := by
-  unfold ControlOk; infer_instance
+instance (n : Nat) (r : CRec) : Decidable (ControlOk n r) :=
+  inferInstanceAs (Decidable (SingleController n r.cb (fun i => r.act.getD i false) ∧
+    TakenOver n r.takeover r.cb (fun i => r.act.getD i false) ∧
+    (r.strong = true → NamesActive n r.cb (fun i => r.act.getD i false))))
 
 def controlOkB (n : Nat) (r : CRec) : Bool := decide (ControlOk n r)
 
